@@ -14,6 +14,8 @@ def run(tier, seed):
     run_fragments(rep, [bind.ClassSeqC()], tier)
     run_rt(rep, rt_final.FINAL + [rt_walk.VisitC(), rt_errors.MapIndexC()], tier)
     wiring.class_compile_obligations(rep, tier)
+    from contracts import segments
+    segments.class_body_closure(rep, tier)
     wiring.span_recording_obligations(rep, tier)
     wiring.metadata_obligations(rep, tier)
     rep.assumptions.append('"unaffected by abandoned alternatives / memoised reuse / pos" are frame facts: raw spans are written only into the fresh '
